@@ -958,6 +958,8 @@ class Sim:
     def _write(self, proc, path, srcs, tag=""):
         if tag.startswith("$"):
             tag = "env=" + str(proc.env.get(tag[1:], "<unset>"))
+        elif tag == "@argv":
+            tag = "argv=" + " ".join(getattr(proc, "argv", []))
         contents = [self._read(proc, p) for p in srcs]
         self._write_data(proc, path, self._derive(proc, tag, path, contents))
 
